@@ -123,18 +123,20 @@ func runC08(c *eng.Ctx, tier string) {
 
 	// R-C08-4 / R-C08-5: every http.Error in package server
 	nErr := 0
-	for _, f := range p.PkgFuncs("server") {
-		eng.Instrs(f, func(in ssa.Instruction) {
-			call, ok := in.(*ssa.Call)
-			if !ok || !eng.CalleeIs(&call.Call, "net/http", "Error") {
-				return
-			}
-			nErr++
-			_, isC := eng.ConstString(call.Call.Args[1])
-			code, isK := eng.ConstInt(call.Call.Args[2])
-			c.Check(isC, "R-C08-5", f, in.Pos(), "http.Error text "+eng.ValStr(call.Call.Args[1]), "error replies carry constant text only (no secret bytes, no error strings)", "non-constant text")
-			c.Check(isK && code >= 400 && code <= 599, "R-C08-4", f, in.Pos(), "http.Error status "+eng.ValStr(call.Call.Args[2]), "a constant 4xx/5xx status", "")
-		})
+	replies := errReplies(p, "server")
+	for _, r := range replies {
+		if r.Text == nil {
+			continue
+		}
+		nErr++
+		via := ""
+		if r.Via != "" {
+			via = " (through " + strings.TrimSpace(r.Via) + ")"
+		}
+		_, isC := eng.ConstString(r.Text)
+		code, isK := eng.ConstInt(r.Code)
+		c.Check(isC, "R-C08-5", r.Fn, r.In.Pos(), "http.Error text "+eng.ValStr(r.Text)+via, "error replies carry constant text only (no secret bytes, no error strings)", "non-constant text")
+		c.Check(isK && code >= 400 && code <= 599, "R-C08-4", r.Fn, r.In.Pos(), "http.Error status "+eng.ValStr(r.Code)+via, "a constant 4xx/5xx status", "")
 	}
 	if nErr < 8 {
 		c.Undecided("R-C08-4", nil, 0, "http.Error sites in package server", "fewer than 8 found")
@@ -146,7 +148,7 @@ func runC08(c *eng.Ctx, tier string) {
 		}
 		hasErr := false
 		for _, in := range r.Block().Instrs {
-			if call, ok := in.(*ssa.Call); ok && eng.CalleeIs(&call.Call, "net/http", "Error") {
+			if er, ok := errReplyIn(replies, in); ok && er.Text != nil {
 				hasErr = true
 			}
 		}
@@ -169,15 +171,9 @@ func runC08(c *eng.Ctx, tier string) {
 			}
 			blk = ifi.Block().Succs[0]
 			for _, x := range blk.Instrs {
-				if ec, ok := x.(*ssa.Call); ok {
-					if eng.CalleeIs(&ec.Call, "net/http", "Error") {
-						code, _ = eng.ConstInt(ec.Call.Args[2])
-						found = true
-					}
-					if ec.Call.IsInvoke() && ec.Call.Method.Name() == "WriteHeader" {
-						code, _ = eng.ConstInt(ec.Call.Args[0])
-						found = true
-					}
+				if er, ok := errReplyIn(replies, x); ok {
+					code, _ = eng.ConstInt(er.Code)
+					found = true
 				}
 			}
 		})
@@ -195,7 +191,7 @@ func runC08(c *eng.Ctx, tier string) {
 				if ec, ok := x.(*ssa.Call); ok && ec.Call.IsInvoke() && ec.Call.Method.Name() == "Write" {
 					return true
 				}
-				if ec, ok := x.(*ssa.Call); ok && eng.CalleeIs(&ec.Call, "net/http", "Error") {
+				if er, ok := errReplyIn(replies, x); ok && er.Text != nil {
 					return true
 				}
 				return false
